@@ -344,10 +344,10 @@ theorem sourcesReady_of_positions (links : List FLink) (comps : List (String × 
         obtain ⟨y1, y2⟩ := y
         simp only at hy1
         subst hy1
-        have hyc : (y1, y2) ∈ comps := by rw [hc]; exact List.mem_append_left _ hy
-        have : y2 = true := pair_unique comps y1 y2 true hnd hyc hmem
+        have hyc : (s.1, y2) ∈ comps := by rw [hc]; exact List.mem_append_left _ hy
+        have : y2 = true := pair_unique comps s.1 y2 true hnd hyc hmem
         subst this
-        exact List.mem_map.mpr ⟨(y1, true), List.mem_filter.mpr ⟨hy, rfl⟩, rfl⟩
+        exact List.mem_map.mpr ⟨(s.1, true), List.mem_filter.mpr ⟨hy, rfl⟩, rfl⟩
       · have := ih (pre ++ [(d, isC)]) (by rw [hc]; simp)
         cases isC with
         | false => simpa [List.filter_append] using this
@@ -410,5 +410,20 @@ theorem sourcesReady_of_order (links : List FLink) (setOrder dests seq : List St
           (s.1, targetNode l.target) hedge s.1 ((hmemS _).mpr hsd) cd ((hmemS _).mpr hcd') hso (hcons l hl cd hcd' hf)
         rw [h] at this
         exact this
+
+/-- the walked sequence is a permutation of the parser's components, hence duplicate-free -/
+theorem sourcesReady_seq_nodup (links : List FLink) (setOrder dests seq : List String)
+    (h : componentOrder (links.map FLink.toLink) setOrder dests = .ok seq) (hnd : dests.Nodup) : seq.Nodup := by
+  unfold componentOrder at h
+  cases ho : instantiationOrder (links.map FLink.toLink) setOrder with
+  | error e => rw [ho] at h; simp at h
+  | ok order =>
+    rw [ho] at h
+    simp only [Except.ok.injEq] at h
+    rw [← h]
+    have h1 : reorder id order (sortDesc depth dests) = reorderRec (fun k c => keyMatches k (id c)) order (sortDesc depth dests) :=
+      reorderBy_eq _ _ _
+    rw [h1]
+    exact (((reorderRec_perm _ order _).trans (sortDesc_perm depth dests)).nodup_iff).mpr hnd
 
 end Jap.Graph
